@@ -3,7 +3,7 @@
    `balg` = the gate algebra at bool; the generator expressions come from
    Gen/SynthGates.v, regenerated from /repo on every run. *)
 From Coq Require Import ZArith List Bool.
-From PyRTL Require Import Netlist.Sem Netlist.WFDefs Pass.BasicGates Pass.BasicGatesProofs Pass.Synth Pass.SynthProofs.
+From PyRTL Require Import Netlist.Sem Netlist.WFDefs Pass.BasicGates Pass.BasicGatesProofs Pass.Synth Pass.SynthProofs Pass.SynthStructure.
 Import ListNotations.
 Open Scope Z_scope.
 
@@ -123,6 +123,53 @@ Theorem C03_simulation : forall nl regmap memmap inss,
     (fst (grun nl (ginit nl regmap memmap) inss)).
 Proof. exact synth_simulation. Qed.
 Print Assumptions C03_simulation.
+
+(* ---------------- the emitted structure ---------------- *)
+
+(* The generators are natural in the gate algebra, so the gate EXPRESSIONS that
+   the model of synthesize emits for a net (Synth.lower: trees over ~ & | ^ nand,
+   constants and argument bits) evaluate to the bits used above. *)
+Theorem C03_emitted_gates_compute_lowering : forall nl bv n,
+  map (geval bv) (lower nl n) = lower_val nl bv n.
+Proof. exact lower_structure. Qed.
+Print Assumptions C03_emitted_gates_compute_lowering.
+
+(* C03_shape on the model: the block emitted for a netlist is, net by net, either
+   the list of gate expressions of the destination bits (only 1-bit ~ & | ^ nand
+   gates by the type gexp), one 1-bit register per destination bit, or a memory
+   port whose address/data are re-assembled from bits; nothing else exists in the
+   type.  (The same property is CHECKED on every real synthesized block by the
+   boolean predicate SynthHarness.shapeb, see py/checks/C03.py.) *)
+Theorem C03_shape : forall nl n,
+  match synth_net nl n with
+  | GAssign w bits => w = ndest n /\ bits = lower nl n
+  | GReg w k src => nop n = OpReg /\ w = ndest n /\ k = wnat nl (ndest n)
+  | GMemRd m w k a na => nop n = OpMemRd m /\ na = wnat nl a
+  | GMemWr m a na d nd en => nop n = OpMemWr m /\ na = wnat nl a /\ nd = wnat nl d
+  end.
+Proof. exact synth_shape. Qed.
+Print Assumptions C03_shape.
+
+(* C03_simulation stated on the emitted block as data (gate expressions evaluated
+   by geval, 1-bit registers, memory ports) *)
+Theorem C03_simulation_emitted_block : forall nl regmap memmap inss,
+  wfb nl = true -> synth_okb nl = true -> legal_init nl regmap -> Forall (legal_ins nl) inss ->
+  Forall2 (wires_repr nl)
+    (fst (run nl 0 (init_state nl 0 regmap memmap) inss))
+    (fst (gnet_run nl (synth nl) (ginit nl regmap memmap) inss)).
+Proof. intros. rewrite run_structure. apply synth_simulation; assumption. Qed.
+Print Assumptions C03_simulation_emitted_block.
+
+(* the two per-bit formulas of synthesize itself (regenerated from the source):
+   Const bit i = (val >> i) & 1, reset bit i = (reset_value >> i) & 1 or None *)
+Theorem C03_const_and_reset_bits : forall c rv (i : nat),
+  negb (g_const_bit c (Z.of_nat i) =? 0) = Z.testbit c (Z.of_nat i)
+  /\ synth_reset rv i = option_map (fun v => Z.testbit v (Z.of_nat i)) rv.
+Proof. intros. split; [apply const_bit_spec|apply synth_reset_spec]. Qed.
+Print Assumptions C03_const_and_reset_bits.
+(* History: while defect F2 was present g_reset_bit was `None` and the theorem was
+   C03_reset_refuted : exists rv i, synth_reset rv i <> option_map ... rv  (rv = Some 5, i = 0),
+   which made C03_simulation false for a register with a non-zero reset value. *)
 
 (* ---------------- interface maps keyed by the original objects ---------------- *)
 
